@@ -391,6 +391,7 @@ def socket_case(arg):
         long_dir = b"d" * r.choice([60, 99, 100, 120])
         t = {b"": Node("dir", 0o755), b"a": Node("file", 0o644, data=[("bytes", b"first")]), long_dir: Node("dir", 0o755),
              b"plain.sock": Node("sock", 0o600), b"plain.sock.after": Node("file", 0o644, data=[("bytes", b"after plain")]),
+             b"plain.sock.second-name": Node("sock", link_to=b"plain.sock"), b"zz-second-name-of-x": Node("sock", link_to=b"x.sock"),
              b"x.sock": Node("sock", 0o666, xattrs={b"user.onsocket": b"1", b"user.second": b"2"}),
              b"x.sock.after": Node("slink", 0o777, target=b"a"),
              long_dir + b"/" + b"s" * 50 + b".sock": Node("sock", 0o644),
@@ -417,7 +418,7 @@ def socket_case(arg):
                     oc.violate("sqfs2tar:sockets:python-tarfile-rejects", repr(e)[:200], {"image.sqfs": img})
                     continue
                 pre = b"root/" if sopt[:1] == ["-r"] else b""
-                want = {pre + q: n for q, n in t.items() if q and n.type != "sock"}
+                want = {pre + q: n for q, n in t.items() if q and (t[n.link_to] if n.link_to is not None else n).type != "sock"}
                 got = {q: e for q, e in tmo.items() if q not in (b"root", b".")}
                 if set(want) != set(got):
                     oc.violate("sqfs2tar:sockets:paths", "opts %s: missing %r unexpected %r" % (sopt, sorted(set(want) - set(got))[:3], sorted(set(got) - set(want))[:3]), {"image.sqfs": img})
